@@ -46,7 +46,11 @@ class Conv:
                   idx=limbs(idx), haspy=False, pysec=[], pyps=[], days=0, sod=0, Y=1970, M=1, D=1, h=0, mi=0, s=0, us=0,
                   raw=[k, n, d])
         if sec < 253402300800:  # before year 10000
-            dt, pyps = self.drf.get_unix_time(k, n, d)
+            try:
+                dt, pyps = self.drf.get_unix_time(k, n, d)
+            except Exception as e:  # noqa: BLE001 - an exception of the implementation is an observation
+                ev.update(pyerr=True, exc=("%s: %s" % (type(e).__name__, e))[:120])
+                return ev
             days = (datetime.date(dt.year, dt.month, dt.day) - datetime.date(1970, 1, 1)).days
             # the Python side is told nothing about the second count: it is reconstructed from the calendar fields
             # with an independent day count, the specification re-derives the calendar from that count
